@@ -35,7 +35,9 @@ def rans_paths(prog, cls, scalar, name, opaque):
         if o.kind != 'ret' or o.ret is None or terms.has_unk(o.ret):
             raise AnalysisBroken('rans_sa::%s has a path that is not a single expression' % name)
         try:
-            res.append((o.conds, poly.from_term(o.ret)))
+            # a ternary (or a helper with several returns) selects a value: same thing as branching
+            for cs2, r2 in terms.split_ite(o.conds, o.ret):
+                res.append((cs2, poly.from_term(r2)))
         except ValueError as ex:
             raise AnalysisBroken('rans_sa::%s: %s' % (name, ex))
     return fn, res
